@@ -68,6 +68,14 @@ def classify_exception(exc):
 _MOD = None
 
 
+def own_diagnostics():
+    """pyMOTO walks inspect.stack() in every Signal/Module constructor to build a source-location string for error
+    messages (0.3-6 ms per object, depending on stack depth). The string takes no part in any behaviour a property talks
+    about; the harness replaces the helper by a constant (patched from outside, DESIGN.md 2.3)."""
+    import pymoto.core_objects as co
+    co.get_init_str = lambda: 'pmc'
+
+
 def _init_worker(modname):
     global _MOD
     import warnings
@@ -75,6 +83,7 @@ def _init_worker(modname):
     _MOD = importlib.import_module(modname)
     import pymoto
     assert os.path.realpath(pymoto.__file__).startswith(REPO_PKG), pymoto.__file__
+    own_diagnostics()
     signal.signal(signal.SIGALRM, _alarm)
 
 
